@@ -206,7 +206,14 @@ impl Rem for &Number {
         let result = a % b;
         let result =
             if a != 0. && (b.is_sign_negative() != a.is_sign_negative()) {
-                if b.is_finite() { result + b } else { f64::NAN }
+                if !b.is_finite() {
+                    f64::NAN
+                } else if result == 0. {
+                    // An exact multiple, with no remainder to adjust.
+                    0.
+                } else {
+                    result + b
+                }
             } else {
                 result
             };
